@@ -32,7 +32,7 @@ from .. import core
 from .. import hyp_common as hc
 
 TOL = 1e-9
-TAN_INVS = ["FormPreserved", "Normalised", "EditsSound", "FrameValid", "AlongLaws", "TurnLaws", "Transport", "SecondsValid", "EmitObs"]
+TAN_INVS = ["FormPreserved", "Normalised", "EditsSound", "InverseLaws", "FrameValid", "AlongLaws", "TurnLaws", "Transport", "SecondsValid", "EmitObs"]
 POLY_INVS = ["CosTableSound", "SurfaceCaseLaws", "AngleCaseLaws", "RadiusCaseLaws", "AdmissibleIffPositive", "EmitCase"]
 SCALES = (1.0, 2.0, 1.0 / 3.0, 5.0, 0.5)
 
@@ -105,7 +105,7 @@ def tanh_arg(t):
 # ------------------------------------------------------------------------------------------
 # tangent vectors: one frame of HypTangent.tla
 # ------------------------------------------------------------------------------------------
-def check_frame(n, ob, seconds, idx, history=()):
+def check_frame(n, ob, seconds, idx, history=(), isouses=()):
     """All obligations of one emitted frame.  Returns (violations, evaluations, actions) where a violation is
     (key, clause, detail)."""
     H = hc.H()
@@ -340,6 +340,62 @@ def check_frame(n, ob, seconds, idx, history=()):
                 bad("raised:history", "after %s: %s" % (list(history[:step]), err_text(e)), sub)
                 return
 
+    # --- constructed isometries are values: uses of the SAME isometry object (apply, inv, compose, matrix) are read-only
+    def run_iso_uses(make_iso, hits, back, label):
+        nonlocal evals
+        done = []
+        try:
+            iso = make_iso()
+            for u in isouses:
+                count("iso_use." + u)
+                evals += 1
+                done.append(u)
+                mis = None
+                if u == "apply":
+                    mis = hits(iso)
+                elif u == "inv":
+                    iso.inv()
+                elif u == "inv_apply":
+                    mis = back(iso.inv())
+                    mis = mis and "the inverse does not send the target back: " + mis
+                elif u == "compose_inverse":
+                    prod = np.asarray((iso @ iso.inv()).matrix, float)
+                    dev = float(np.abs(prod - np.eye(n + 1)).max())
+                    if not dev <= TOL * max(1.0, float(np.abs(px).max())) ** 2:
+                        mis = "iso @ iso.inv() differs from the identity by %.3e" % dev
+                elif u == "matrix":
+                    res = hc.form_residual(iso)
+                    if not res <= TOL:
+                        mis = "max|RJR^T-J| = %.3e" % res
+                else:
+                    raise core.MachineryFailure("unknown use %r in ISOUSES" % u)
+                if mis:
+                    bad("iso_use." + label, "after the uses %s of the same isometry object: %s" % (done, mis))
+                    return
+        except core.MachineryFailure:
+            raise
+        except Exception as e:
+            bad("raised:iso_use." + label, "after %s: %s" % (done, err_text(e)))
+
+    if isouses:
+        e0tan = dict(p=origin.astype(int).tolist(), ph=origin.astype(int).tolist(), v=[0, 1] + [0] * (n - 1), d=1)
+        fo_pt = idx % 2 == 0
+        run_iso_uses(lambda: H.Point(P.copy()).origin_to(force_oriented=fo_pt),
+                     lambda iso: None if hc.proj_close(np.asarray((iso @ H.Point.get_origin(n)).proj_data, float), P, TOL)
+                     else "origin -> %r, point %r" % (np.asarray((iso @ H.Point.get_origin(n)).proj_data).tolist(), P.tolist()),
+                     lambda inv: None if hc.proj_close(np.asarray((inv @ H.Point(P.copy())).proj_data, float), origin, TOL)
+                     else "point -> %r" % np.asarray((inv @ H.Point(P.copy())).proj_data).tolist(),
+                     "point_origin_to")
+        run_iso_uses(lambda: make_tv(H, tan, m, form).origin_to(force_oriented=not fo_pt),
+                     lambda iso: dir_mismatch(iso @ H.TangentVector.get_base_tangent(n), tan),
+                     lambda inv: dir_mismatch(inv @ make_tv(H, tan, m, form), e0tan),
+                     "tangent_origin_to")
+        sec = seconds[idx % len(seconds)]
+        run_iso_uses(lambda: make_tv(H, tan, m, form).isometry_to(make_tv(H, sec, 2.0, 0), force_oriented=fo_pt),
+                     lambda iso: dir_mismatch(iso @ make_tv(H, tan, m, form), sec),
+                     lambda inv: dir_mismatch(inv @ make_tv(H, sec, 1.0, 0), tan),
+                     "isometry_to")
+
     if history:
         try:
             run_history(make_tv(H, tan, 1.0, form), "float")
@@ -386,8 +442,8 @@ def check_frame(n, ob, seconds, idx, history=()):
 
 
 def _frame_job(args):
-    n, ob, seconds, idx, history = args
-    return check_frame(n, ob, seconds, idx, history)
+    n, ob, seconds, idx, history, isouses = args
+    return check_frame(n, ob, seconds, idx, history, isouses)
 
 
 def parse_table(stdout, tag):
@@ -399,7 +455,7 @@ def parse_table(stdout, tag):
 
 def tangent_tlc(run, n, maxlen, thin):
     c = core.cfg(constants=dict(N=n, MaxLen=maxlen, Thin=thin), init="TInit", next_="TNext", invariants=TAN_INVS, view="TView")
-    return run.tlc("hyp/HypTangent.tla", c, name="HypTangent_n%d" % n, workers=2 if run.tier == "quick" else 4, emit_prefix="OBS ")
+    return run.tlc("hyp/HypTangent.tla", c, name="HypTangent_n%d" % n, workers=min(core.NCPU, 2 if run.tier == "quick" else 4), emit_prefix="OBS ")
 
 
 def tangent(run, n, r, pool, limit=None, rng=None):
@@ -422,7 +478,9 @@ def tangent(run, n, r, pool, limit=None, rng=None):
         obs = keep + rest[:max(0, limit - len(keep))]
     history = parse_table(r.stdout, "HISTORY")
     edits = parse_table(r.stdout, "EDITS")
-    jobs = [(n, ob, seconds, i, history) for i, ob in enumerate(obs)]
+    isouses = parse_table(r.stdout, "ISOUSES")
+    orient = parse_table(r.stdout, "ORIENT")
+    jobs = [(n, ob, seconds, i, history, isouses) for i, ob in enumerate(obs)]
     results = pool.map(_frame_job, jobs, chunksize=8) if pool else map(_frame_job, jobs)
     for (viol, evals, acts), ob in zip(results, obs):
         run.evaluations += evals
@@ -440,10 +498,10 @@ def tangent(run, n, r, pool, limit=None, rng=None):
         run.sample(dict(kind="tangent frame", n=n, tangent=e["tv"], along=e["along"][:2],
                         turn=dict(cos=e["turns"][1]["cos"], tv=e["turns"][1]["tv"], coshd=e["turns"][1]["coshd"][0][:2]),
                         isometry_to_target=seconds[1]))
-    composite(run, n, every, seconds, edits)
+    composite(run, n, every, seconds, edits, isouses, orient)
 
 
-def composite(run, n, obs, seconds, edits=()):
+def composite(run, n, obs, seconds, edits=(), isouses=(), orient=(True,)):
     """the same operations on one composite TangentVector holding every frame of the dimension"""
     H = hc.H()
     if len(obs) < 2:
@@ -462,17 +520,78 @@ def composite(run, n, obs, seconds, edits=()):
     def first_bad(mask):
         return int(np.nonzero(mask)[0][0])
     try:
-        run.case(key=(key, "origin_to"), action="composite.origin_to")
-        img = fresh().origin_to() @ H.TangentVector.get_base_tangent(n)
-        got = lib_dir(img)
-        if got is None or got[0].shape != WX.shape:
-            run.violation(key + ":origin_to", "composite.origin_to", dict(n=n, observed="not tangent vectors / shape"))
-        else:
+        # arrays of constructed isometries, orientation forced or not: targets hit by every unit, det > 0 per unit when
+        # forced, and still so after uses (apply / inv / compose) of the same composite isometry object
+        o_pt = np.zeros(n + 1)
+        o_pt[0] = 1.0
+        mix = run.extra.setdefault("unforced_determinant_signs", {})
+
+        def targets(iso, cls):
+            """None or (index, text): which unit misses its target"""
+            if cls == "point":
+                img = np.asarray((iso @ H.Point.get_origin(n)).proj_data, float)
+                if img.shape != P.shape:
+                    return (0, "image shape %r" % (img.shape,))
+                badm = ~proj_close_rows(img, P)
+                return (first_bad(badm), "origin -> %r" % img[first_bad(badm)].tolist()) if badm.any() else None
+            got = lib_dir(iso @ H.TangentVector.get_base_tangent(n))
+            if got is None or got[0].shape != WX.shape:
+                return (0, "not tangent vectors / shape")
             badm = (np.abs(got[0] - WX).max(-1) > TOL * scale) | (np.abs(got[1] - V).max(-1) > TOL * scale)
-            if badm.any():
-                i = first_bad(badm)
-                run.violation(key + ":origin_to:%d" % i, "composite.origin_to",
-                              dict(n=n, tangent=obs[i]["tv"], observed="basepoint %r direction %r" % (got[0][i].tolist(), got[1][i].tolist())))
+            return (first_bad(badm), "basepoint %r direction %r" % (got[0][first_bad(badm)].tolist(), got[1][first_bad(badm)].tolist())) if badm.any() else None
+
+        for cls in ("point", "tangent"):
+            for fo in orient:
+                run.case(key=(key, "origin_to", cls, fo), action="composite.origin_to")
+                ck = "%s:origin_to:%s:forced=%s" % (key, cls, fo)
+                iso = (H.Point(P.copy()) if cls == "point" else fresh()).origin_to(force_oriented=fo)
+                M = np.asarray(iso.matrix, float)
+                if M.shape != (k, n + 1, n + 1):
+                    run.violation(ck + ":shape", "composite.origin_to.shape", dict(n=n, cls=cls, observed=M.shape))
+                    continue
+                dets = np.linalg.det(M)
+                if not fo:
+                    mix["n=%d:%s" % (n, cls)] = dict(positive=int((dets > 0).sum()), negative=int((dets < 0).sum()))
+                uses = ["construct"]
+                miss = targets(iso, cls)
+                for u in isouses:
+                    if miss:
+                        break
+                    uses.append(u)
+                    if u == "apply":
+                        miss = targets(iso, cls)
+                    elif u in ("inv", "inv_apply"):
+                        inv = iso.inv()
+                        if u == "inv_apply":
+                            if cls == "point":
+                                back = np.asarray((inv @ H.Point(P.copy())).proj_data, float)
+                                badm = ~proj_close_rows(back, np.tile(o_pt, (k, 1)))
+                            else:
+                                got = lib_dir(inv @ fresh())
+                                badm = np.ones(k, bool) if got is None else \
+                                    (np.abs(got[0] - o_pt).max(-1) > TOL * scale) | (np.abs(got[1] - np.eye(n + 1)[1]).max(-1) > TOL * scale)
+                            if badm.any():
+                                miss = (first_bad(badm), "the inverse does not send the target back to the origin / base tangent")
+                    elif u == "compose_inverse":
+                        dev = np.abs(np.asarray((iso @ iso.inv()).matrix, float) - np.eye(n + 1)).max((-1, -2))
+                        badm = ~(dev <= TOL * scale ** 2)
+                        if badm.any():
+                            miss = (first_bad(badm), "iso @ iso.inv() differs from the identity by %.3e" % dev[first_bad(badm)])
+                    elif u == "matrix":
+                        res = hc.form_residual(iso)
+                        if not res <= TOL:
+                            miss = (0, "max|RJR^T-J| = %.3e" % res)
+                if miss:
+                    i, text = miss
+                    run.violation("%s:target:%d" % (ck, i), "composite.origin_to.target",
+                                  dict(n=n, cls=cls, force_oriented=fo, uses_of_the_isometry_object=uses, tangent=obs[i]["tv"], observed=text))
+                    continue
+                dets2 = np.linalg.det(np.asarray(iso.matrix, float))
+                if fo and not ((dets > 0).all() and (dets2 > 0).all()):
+                    i = first_bad(~((dets > 0) & (dets2 > 0)))
+                    run.violation("%s:oriented:%d" % (ck, i), "composite.origin_to.oriented",
+                                  dict(n=n, cls=cls, tangent=obs[i]["tv"], units=k, orientation_reversing_units=int((~((dets > 0) & (dets2 > 0))).sum()),
+                                       observed="force_oriented=True but det = %r for unit %d" % (float(dets[i]), i)))
         for j in range(len(obs[0]["along"])):
             t = np.array([tanh_arg(o["along"][j]["t"]) for o in obs])
             want = np.array([o["along"][j]["q"] for o in obs], float)
@@ -498,7 +617,16 @@ def composite(run, n, obs, seconds, edits=()):
             run.case(key=(key, "isometry_to", j), action="composite.isometry_to")
             sx, sv = spec_dir(sec)
             target = H.TangentVector(H.Point(np.tile(np.array(sec["p"], float), (k, 1))), np.tile(2.0 * sv, (k, 1)))
-            img = fresh().isometry_to(target) @ fresh()
+            fo = bool(orient[j % len(orient)])
+            iso_c = fresh().isometry_to(target, force_oriented=fo)
+            img = iso_c @ fresh()
+            dets = np.linalg.det(np.asarray(iso_c.matrix, float))
+            if fo and not (dets.shape == (k,) and (dets > 0).all()):
+                i = first_bad(~(dets > 0)) if dets.shape == (k,) else 0
+                run.violation(key + ":isometry_to:%d:oriented:%d" % (j, i), "composite.isometry_to.oriented",
+                              dict(n=n, tangent=obs[i]["tv"], target={f: sec[f] for f in ("p", "v", "d")}, units=k,
+                                   observed="force_oriented=True but %d of %d units have det < 0" % (int((~(dets > 0)).sum()), k)))
+                continue
             got = lib_dir(img)
             if got is None or got[0].shape != WX.shape:
                 run.violation(key + ":isometry_to:%d" % j, "composite.isometry_to", dict(n=n, observed="not tangent vectors / shape"))
@@ -856,14 +984,14 @@ def run(run, replay=None):
     tplan = {2: (2, False, 170), 3: (2, True, 110), 4: (1, False, None), 5: (1, False, None)} if quick else \
             {2: (3, True, 1500), 3: (2, False, None), 4: (2, False, 500), 5: (2, False, 400)}
     pplan = {2: (3, False), 3: (2, False), 4: (2, True), 5: (2, True)} if quick else {2: (5, False), 3: (3, False), 4: (2, False), 5: (2, False)}
-    with ThreadPoolExecutor(max_workers=3 if quick else 4) as ex:
+    with ThreadPoolExecutor(max_workers=min(core.NCPU, 3 if quick else 4)) as ex:
         ft = {n: ex.submit(tangent_tlc, run, n, L, thin) for n, (L, thin, _) in tplan.items()}
         fq = ex.submit(polygons_tlc, run, quick)
         fp = {n: ex.submit(pairs_tlc, run, n, B, sq) for n, (B, sq) in pplan.items()}
         rt = {n: f.result() for n, f in ft.items()}
         rq = fq.result()
         rp = {n: f.result() for n, f in fp.items()}
-    pool = multiprocessing.get_context("fork").Pool(4 if quick else 8)
+    pool = multiprocessing.get_context("fork").Pool(min(core.NCPU, 4 if quick else 8))
     try:
         for n, (L, thin, limit) in tplan.items():
             tangent(run, n, rt[n], pool, limit, rng)
